@@ -187,3 +187,15 @@ Theorem C16_counter_matches_calls : forall c st s f n,
             ((0 < f_off4 f)%nat \/ (0 < f_off6 f)%nat \/ f_id f = PayloadARP).
 Proof. exact counter_matches_calls. Qed.
 Print Assumptions C16_counter_matches_calls.
+
+(* ==== Per call, in every state, at every log level ======================================================================
+   The measurement side: kind ppa brackets EVERY single Parse call with a malloc count while a ping is pending (matching
+   identifier from the pinged host / from another tracked host / other identifier); kind alloc runs the sweep at the
+   levels error, info and debug; kind logs ties the list of log statements on Parse's path and their guards
+   (Model/ParseCalls.v parse_logs) to the source. *)
+Theorem C16_zero_alloc_every_level : forall lvl c st s f,
+  parse c s = Ok f ->
+  (forall k, f_host f = Some k -> st k = TrackedOnline \/ (lvl = LError /\ st k = TrackedOffline)) ->
+  parse_allocs_lvl lvl c st s = Ok 0%nat.
+Proof. exact zero_alloc_every_level. Qed.
+Print Assumptions C16_zero_alloc_every_level.
